@@ -7,6 +7,7 @@ package verifspec
 
 //@ pure funcKeyOf(d int) int
 //@ pure recvKeyOf(d int) int
+//@ pure recvKeyLen(d int) int
 //@ pure keepOrig(d int) bool
 //@ pure overSig(d int) bool
 //@ pure purged(n int) bool
@@ -18,7 +19,7 @@ package verifspec
 //@ extern compiler/astutil.FuncReceiverKey
 //@   param d
 //@   assigns nothing
-//@   ensures str(result) == recvKeyOf(ref(d))
+//@   ensures str(result) == recvKeyOf(ref(d)) && len(result) == recvKeyLen(ref(d))
 //@ extern compiler/astutil.KeepOriginal
 //@   param d
 //@   assigns nothing
@@ -76,3 +77,58 @@ package verifspec
 //@   oncall finalizeRemovals: assert forall(k, 0, len(file.Decls), typeis(old(file.Decls)[k], "*go/ast.FuncDecl") && overSig(ref(old(file.Decls)[k])) ==> file.Decls[k] == nil)
 //@   ensures forall(k, 0, len(old(file.Decls)), purged(key(old(file.Decls)[k])) ==> finalized && pruned)
 //@   ensures forall(k, 0, len(old(file.Decls)), typeis(old(file.Decls)[k], "*go/ast.FuncDecl") && overSig(ref(old(file.Decls)[k])) ==> finalized && pruned)
+
+// augmentOriginalFile: a function or method of the original whose key the overlay declares is removed, unless the
+// overlay asks to keep the original (it is renamed) or to override only the signature; methods of purged types are
+// removed; a function the overlay does not mention (and whose receiver type is not purged) stays exactly as it was; and
+// whenever a function matched at all, the file is cleaned up afterwards (removals finalised, unused imports pruned) --
+// also when nothing was removed, because a kept or re-signed original may have lost the last use of an import.
+//@ func build.augmentOriginalFile
+//@ property C12
+//@   requires file != nil
+//@   requires forall(k, 0, len(file.Decls), file.Decls[k] != nil)
+//@   ghost finalized = false
+//@   ghost pruned = false
+//@   panics_only_if true
+//@   loop 1 assigns elems(file.Decls)
+//@   loop 1 invariant 0 <= $i1 && $i1 <= len(file.Decls) && len(file.Decls) == len(old(file.Decls)) && !finalized && !pruned
+//@   loop 1 invariant forall(k, 0, $i1, typeis(old(file.Decls)[k], "*go/ast.FuncDecl") && has(overrides, funcKeyOf(ref(old(file.Decls)[k]))) ==> anyChange)
+//@   loop 1 invariant forall(k, 0, $i1, typeis(old(file.Decls)[k], "*go/ast.FuncDecl") && has(overrides, funcKeyOf(ref(old(file.Decls)[k]))) && !overrides[funcKeyOf(ref(old(file.Decls)[k]))].keepOriginal && overrides[funcKeyOf(ref(old(file.Decls)[k]))].overrideSignature == nil ==> file.Decls[k] == nil)
+//@   loop 1 invariant forall(k, 0, $i1, typeis(old(file.Decls)[k], "*go/ast.FuncDecl") && !has(overrides, funcKeyOf(ref(old(file.Decls)[k]))) && recvKeyLen(ref(old(file.Decls)[k])) > 0 && has(overrides, recvKeyOf(ref(old(file.Decls)[k]))) && overrides[recvKeyOf(ref(old(file.Decls)[k]))].purgeMethods ==> file.Decls[k] == nil && anyChange)
+//@   loop 1 invariant forall(k, 0, $i1, typeis(old(file.Decls)[k], "*go/ast.FuncDecl") && !has(overrides, funcKeyOf(ref(old(file.Decls)[k]))) && !(recvKeyLen(ref(old(file.Decls)[k])) > 0 && has(overrides, recvKeyOf(ref(old(file.Decls)[k]))) && overrides[recvKeyOf(ref(old(file.Decls)[k]))].purgeMethods) ==> file.Decls[k] == old(file.Decls)[k])
+//@   loop 1 invariant forall(k, $i1, len(file.Decls), file.Decls[k] == old(file.Decls)[k])
+//@   loop 2 invariant 0 <= $i1 && $i1 < len(file.Decls) && len(file.Decls) == len(old(file.Decls)) && !finalized && !pruned
+//@   loop 2 invariant forall(k, 0, $i1, typeis(old(file.Decls)[k], "*go/ast.FuncDecl") && has(overrides, funcKeyOf(ref(old(file.Decls)[k]))) ==> anyChange)
+//@   loop 2 invariant forall(k, 0, $i1, typeis(old(file.Decls)[k], "*go/ast.FuncDecl") && has(overrides, funcKeyOf(ref(old(file.Decls)[k]))) && !overrides[funcKeyOf(ref(old(file.Decls)[k]))].keepOriginal && overrides[funcKeyOf(ref(old(file.Decls)[k]))].overrideSignature == nil ==> file.Decls[k] == nil)
+//@   loop 2 invariant forall(k, 0, $i1, typeis(old(file.Decls)[k], "*go/ast.FuncDecl") && !has(overrides, funcKeyOf(ref(old(file.Decls)[k]))) && recvKeyLen(ref(old(file.Decls)[k])) > 0 && has(overrides, recvKeyOf(ref(old(file.Decls)[k]))) && overrides[recvKeyOf(ref(old(file.Decls)[k]))].purgeMethods ==> file.Decls[k] == nil && anyChange)
+//@   loop 2 invariant forall(k, 0, $i1, typeis(old(file.Decls)[k], "*go/ast.FuncDecl") && !has(overrides, funcKeyOf(ref(old(file.Decls)[k]))) && !(recvKeyLen(ref(old(file.Decls)[k])) > 0 && has(overrides, recvKeyOf(ref(old(file.Decls)[k]))) && overrides[recvKeyOf(ref(old(file.Decls)[k]))].purgeMethods) ==> file.Decls[k] == old(file.Decls)[k])
+//@   loop 2 invariant forall(k, $i1, len(file.Decls), file.Decls[k] == old(file.Decls)[k])
+//@   loop 3 invariant 0 <= $i1 && $i1 < len(file.Decls) && len(file.Decls) == len(old(file.Decls)) && !finalized && !pruned
+//@   loop 3 invariant forall(k, 0, $i1, typeis(old(file.Decls)[k], "*go/ast.FuncDecl") && has(overrides, funcKeyOf(ref(old(file.Decls)[k]))) ==> anyChange)
+//@   loop 3 invariant forall(k, 0, $i1, typeis(old(file.Decls)[k], "*go/ast.FuncDecl") && has(overrides, funcKeyOf(ref(old(file.Decls)[k]))) && !overrides[funcKeyOf(ref(old(file.Decls)[k]))].keepOriginal && overrides[funcKeyOf(ref(old(file.Decls)[k]))].overrideSignature == nil ==> file.Decls[k] == nil)
+//@   loop 3 invariant forall(k, 0, $i1, typeis(old(file.Decls)[k], "*go/ast.FuncDecl") && !has(overrides, funcKeyOf(ref(old(file.Decls)[k]))) && recvKeyLen(ref(old(file.Decls)[k])) > 0 && has(overrides, recvKeyOf(ref(old(file.Decls)[k]))) && overrides[recvKeyOf(ref(old(file.Decls)[k]))].purgeMethods ==> file.Decls[k] == nil && anyChange)
+//@   loop 3 invariant forall(k, 0, $i1, typeis(old(file.Decls)[k], "*go/ast.FuncDecl") && !has(overrides, funcKeyOf(ref(old(file.Decls)[k]))) && !(recvKeyLen(ref(old(file.Decls)[k])) > 0 && has(overrides, recvKeyOf(ref(old(file.Decls)[k]))) && overrides[recvKeyOf(ref(old(file.Decls)[k]))].purgeMethods) ==> file.Decls[k] == old(file.Decls)[k])
+//@   loop 3 invariant forall(k, $i1, len(file.Decls), file.Decls[k] == old(file.Decls)[k])
+//@   loop 4 invariant 0 <= $i1 && $i1 < len(file.Decls) && len(file.Decls) == len(old(file.Decls)) && !finalized && !pruned
+//@   loop 4 invariant forall(k, 0, $i1, typeis(old(file.Decls)[k], "*go/ast.FuncDecl") && has(overrides, funcKeyOf(ref(old(file.Decls)[k]))) ==> anyChange)
+//@   loop 4 invariant forall(k, 0, $i1, typeis(old(file.Decls)[k], "*go/ast.FuncDecl") && has(overrides, funcKeyOf(ref(old(file.Decls)[k]))) && !overrides[funcKeyOf(ref(old(file.Decls)[k]))].keepOriginal && overrides[funcKeyOf(ref(old(file.Decls)[k]))].overrideSignature == nil ==> file.Decls[k] == nil)
+//@   loop 4 invariant forall(k, 0, $i1, typeis(old(file.Decls)[k], "*go/ast.FuncDecl") && !has(overrides, funcKeyOf(ref(old(file.Decls)[k]))) && recvKeyLen(ref(old(file.Decls)[k])) > 0 && has(overrides, recvKeyOf(ref(old(file.Decls)[k]))) && overrides[recvKeyOf(ref(old(file.Decls)[k]))].purgeMethods ==> file.Decls[k] == nil && anyChange)
+//@   loop 4 invariant forall(k, 0, $i1, typeis(old(file.Decls)[k], "*go/ast.FuncDecl") && !has(overrides, funcKeyOf(ref(old(file.Decls)[k]))) && !(recvKeyLen(ref(old(file.Decls)[k])) > 0 && has(overrides, recvKeyOf(ref(old(file.Decls)[k]))) && overrides[recvKeyOf(ref(old(file.Decls)[k]))].purgeMethods) ==> file.Decls[k] == old(file.Decls)[k])
+//@   loop 4 invariant forall(k, $i1, len(file.Decls), file.Decls[k] == old(file.Decls)[k])
+//@   loop 5 invariant 0 <= $i1 && $i1 < len(file.Decls) && len(file.Decls) == len(old(file.Decls)) && !finalized && !pruned
+//@   loop 5 invariant forall(k, 0, $i1, typeis(old(file.Decls)[k], "*go/ast.FuncDecl") && has(overrides, funcKeyOf(ref(old(file.Decls)[k]))) ==> anyChange)
+//@   loop 5 invariant forall(k, 0, $i1, typeis(old(file.Decls)[k], "*go/ast.FuncDecl") && has(overrides, funcKeyOf(ref(old(file.Decls)[k]))) && !overrides[funcKeyOf(ref(old(file.Decls)[k]))].keepOriginal && overrides[funcKeyOf(ref(old(file.Decls)[k]))].overrideSignature == nil ==> file.Decls[k] == nil)
+//@   loop 5 invariant forall(k, 0, $i1, typeis(old(file.Decls)[k], "*go/ast.FuncDecl") && !has(overrides, funcKeyOf(ref(old(file.Decls)[k]))) && recvKeyLen(ref(old(file.Decls)[k])) > 0 && has(overrides, recvKeyOf(ref(old(file.Decls)[k]))) && overrides[recvKeyOf(ref(old(file.Decls)[k]))].purgeMethods ==> file.Decls[k] == nil && anyChange)
+//@   loop 5 invariant forall(k, 0, $i1, typeis(old(file.Decls)[k], "*go/ast.FuncDecl") && !has(overrides, funcKeyOf(ref(old(file.Decls)[k]))) && !(recvKeyLen(ref(old(file.Decls)[k])) > 0 && has(overrides, recvKeyOf(ref(old(file.Decls)[k]))) && overrides[recvKeyOf(ref(old(file.Decls)[k]))].purgeMethods) ==> file.Decls[k] == old(file.Decls)[k])
+//@   loop 5 invariant forall(k, $i1, len(file.Decls), file.Decls[k] == old(file.Decls)[k])
+//@   loop 6 invariant 0 <= $i1 && $i1 < len(file.Decls) && len(file.Decls) == len(old(file.Decls)) && !finalized && !pruned
+//@   loop 6 invariant forall(k, 0, $i1, typeis(old(file.Decls)[k], "*go/ast.FuncDecl") && has(overrides, funcKeyOf(ref(old(file.Decls)[k]))) ==> anyChange)
+//@   loop 6 invariant forall(k, 0, $i1, typeis(old(file.Decls)[k], "*go/ast.FuncDecl") && has(overrides, funcKeyOf(ref(old(file.Decls)[k]))) && !overrides[funcKeyOf(ref(old(file.Decls)[k]))].keepOriginal && overrides[funcKeyOf(ref(old(file.Decls)[k]))].overrideSignature == nil ==> file.Decls[k] == nil)
+//@   loop 6 invariant forall(k, 0, $i1, typeis(old(file.Decls)[k], "*go/ast.FuncDecl") && !has(overrides, funcKeyOf(ref(old(file.Decls)[k]))) && recvKeyLen(ref(old(file.Decls)[k])) > 0 && has(overrides, recvKeyOf(ref(old(file.Decls)[k]))) && overrides[recvKeyOf(ref(old(file.Decls)[k]))].purgeMethods ==> file.Decls[k] == nil && anyChange)
+//@   loop 6 invariant forall(k, 0, $i1, typeis(old(file.Decls)[k], "*go/ast.FuncDecl") && !has(overrides, funcKeyOf(ref(old(file.Decls)[k]))) && !(recvKeyLen(ref(old(file.Decls)[k])) > 0 && has(overrides, recvKeyOf(ref(old(file.Decls)[k]))) && overrides[recvKeyOf(ref(old(file.Decls)[k]))].purgeMethods) ==> file.Decls[k] == old(file.Decls)[k])
+//@   loop 6 invariant forall(k, $i1, len(file.Decls), file.Decls[k] == old(file.Decls)[k])
+//@   oncall finalizeRemovals: assert forall(k, 0, len(file.Decls), typeis(old(file.Decls)[k], "*go/ast.FuncDecl") && has(overrides, funcKeyOf(ref(old(file.Decls)[k]))) && !overrides[funcKeyOf(ref(old(file.Decls)[k]))].keepOriginal && overrides[funcKeyOf(ref(old(file.Decls)[k]))].overrideSignature == nil ==> file.Decls[k] == nil)
+//@   oncall finalizeRemovals: assert forall(k, 0, len(file.Decls), typeis(old(file.Decls)[k], "*go/ast.FuncDecl") && !has(overrides, funcKeyOf(ref(old(file.Decls)[k]))) && recvKeyLen(ref(old(file.Decls)[k])) > 0 && has(overrides, recvKeyOf(ref(old(file.Decls)[k]))) && overrides[recvKeyOf(ref(old(file.Decls)[k]))].purgeMethods ==> file.Decls[k] == nil)
+//@   oncall finalizeRemovals: assert forall(k, 0, len(file.Decls), typeis(old(file.Decls)[k], "*go/ast.FuncDecl") && !has(overrides, funcKeyOf(ref(old(file.Decls)[k]))) && !(recvKeyLen(ref(old(file.Decls)[k])) > 0 && has(overrides, recvKeyOf(ref(old(file.Decls)[k]))) && overrides[recvKeyOf(ref(old(file.Decls)[k]))].purgeMethods) ==> file.Decls[k] == old(file.Decls)[k])
+//@   ensures forall(k, 0, len(old(file.Decls)), typeis(old(file.Decls)[k], "*go/ast.FuncDecl") && has(overrides, funcKeyOf(ref(old(file.Decls)[k]))) ==> finalized && pruned)
+//@   ensures forall(k, 0, len(old(file.Decls)), typeis(old(file.Decls)[k], "*go/ast.FuncDecl") && !has(overrides, funcKeyOf(ref(old(file.Decls)[k]))) && recvKeyLen(ref(old(file.Decls)[k])) > 0 && has(overrides, recvKeyOf(ref(old(file.Decls)[k]))) && overrides[recvKeyOf(ref(old(file.Decls)[k]))].purgeMethods ==> finalized && pruned)
